@@ -214,6 +214,19 @@ class ILock(object):
 PST = {"init": 0, "handshake": 1, "transport": 2, "error": 3}
 
 
+def expected_presented_for(phone, passive, pushname=None, mcc=None, mnc=None, fdid=None):
+    """The ClientPayload fields the property names, for a configuration (what on_auth must present when
+    the auth event says `passive` and the profile config holds these values at that moment)."""
+    from yowsup.env import YowsupEnv
+    env = YowsupEnv.getCurrent()
+    return {"username": int(phone), "passive": bool(passive),
+            "push_name": pushname or "yowsup", "platform": 0,
+            "mcc": mcc or "000", "mnc": mnc or "000", "os_version": env.getOSVersion(),
+            "manufacturer": env.getManufacturer(), "device": env.getDeviceName(),
+            "os_build_number": env.getOSVersion(), "phone_id": fdid or "",
+            "lang": "en", "country": "US", "app_version": env.getVersion(), "short_connect": True}
+
+
 # ------------------------------------------------------------------ rig
 class Rig(object):
     def __init__(self, scratch, name, variant, edge=None, passive=False, pushname=None, mcc=None, mnc=None,
@@ -226,6 +239,10 @@ class Rig(object):
         self.variant = variant
         self.server_kp = X25519DH().generate_keypair()
         self.other_pub = X25519DH().generate_keypair().public.data
+        # key codes: 0 none, 1 the server's first key, 2 a stale key nobody owns, 3 / 4 keys the server
+        # rotates to in later logins of a history (the responder of a connection uses self.server_kp)
+        self.server_kps = {1: self.server_kp, 3: X25519DH().generate_keypair(), 4: X25519DH().generate_keypair()}
+        self.srv = 1
         stored = None
         if variant == "IK":
             stored = PublicKey(self.server_kp.public.data)
@@ -301,10 +318,30 @@ class Rig(object):
         if pk is None:
             return 0
         d = bytes(pk.data)
-        return 1 if d == self.server_kp.public.data else 2 if d == self.other_pub else 9
+        for code, kp in self.server_kps.items():
+            if d == kp.public.data:
+                return code
+        return 2 if d == self.other_pub else 9
+
+    def apply_login(self, over):
+        """Change the configuration before the next auth event (a later login of a history on this same
+        stack instance): passive flag of the auth event, profile config attributes, the key the server
+        answers with, corruption of its hello.  Only public attributes of Config are set."""
+        if "passive" in over:
+            self.passive = bool(over["passive"])
+        for k in ("pushname", "mcc", "mnc", "fdid"):
+            if k in over:
+                self.expect[k] = over[k]
+                setattr(self.config, k, over[k])
+        if "srv" in over:
+            self.srv = int(over["srv"])
+            self.server_kp = self.server_kps[self.srv]
+        if "corrupt" in over:
+            self.corrupt = over["corrupt"]
 
     def connect(self):
         self.resp = NZ.Responder(self.server_kp, corrupt_hello=self.corrupt)
+        self.resp.srv = self.srv
         self.resp.on_unit = lambda kind: self.note(11, {"prologue": 0, "hello": 1, "finish": 2, "edge": 3,
                                                          "routing": 4, "data": 5}[kind])
         self.resps.append(self.resp)
@@ -337,15 +374,8 @@ class Rig(object):
         return (NZ.EDGE + NZ.wire(e) if e else b"") + NZ.PROLOGUE
 
     def expected_presented(self):
-        from yowsup.env import YowsupEnv
-        env = YowsupEnv.getCurrent()
         e = self.expect
-        return {"username": int(e["phone"]), "passive": bool(self.passive),
-                "push_name": e["pushname"] or "yowsup", "platform": 0,
-                "mcc": e["mcc"] or "000", "mnc": e["mnc"] or "000", "os_version": env.getOSVersion(),
-                "manufacturer": env.getManufacturer(), "device": env.getDeviceName(),
-                "os_build_number": env.getOSVersion(), "phone_id": e["fdid"] or "",
-                "lang": "en", "country": "US", "app_version": env.getVersion(), "short_connect": True}
+        return expected_presented_for(e["phone"], self.passive, e["pushname"], e["mcc"], e["mnc"], e["fdid"])
 
     # ---- instrumentation for a scheduled run
     def instrument(self, sched):
@@ -397,8 +427,11 @@ def chunks_of(rng, data, style):
 
 # ------------------------------------------------------------------ scheduled run
 def run_scheduled(scratch, name, scn, choose, rng):
-    """scn: dict(variant, edge, passive, corrupt, script=[('auth',)|('disc',)|('hello',)|('data',sid)...],
-                chunk='whole'|..., hold=[bool per script item])
+    """scn: dict(variant, edge, passive, corrupt, script=[('auth',)|('auth', {overrides})|('disc',)|('hello',)|
+                ('data',sid)...], chunk='whole'|..., hold=[bool per script item], quiesce=bool)
+    ('auth', {...}): a later login of a history; the dict changes the configuration in force before the
+    auth event is emitted (Rig.apply_login).  quiesce: the network thread handles a disconnect/auth event
+    only when no handshake worker is alive (histories inside the proved reconnect domain).
     Returns observation dict."""
     m = y()
     rig = Rig(scratch, name, scn["variant"], edge=scn.get("edge"), passive=scn.get("passive", False),
@@ -409,6 +442,10 @@ def run_scheduled(scratch, name, scn, choose, rng):
     script = scn["script"]
     chunk_log = []
     cut_live = []          # per disconnect event: was a handshake worker of an earlier attempt still alive?
+    logins = []            # per auth event: the configuration in force when it was emitted
+
+    def workers_alive():
+        return any(t["state"] not in ("done", "crashed") for tid, t in sched.thr.items() if tid != 0)
 
     def available(i):
         it = script[i]
@@ -416,6 +453,8 @@ def run_scheduled(scratch, name, scn, choose, rng):
             return rig.resp is not None and any(k == "hello" for k, _ in rig.resp.out)
         if it[0] == "data":
             return rig.resp is not None and rig.resp.can_send()
+        if scn.get("quiesce") and it[0] in ("auth", "disc"):
+            return not workers_alive()
         return True
 
     def nt_body():
@@ -425,11 +464,13 @@ def run_scheduled(scratch, name, scn, choose, rng):
             sched.yield_("event", pred=lambda i=i: available(i))
             if it[0] == "auth":
                 att += 1
+                if len(it) > 1 and it[1]:
+                    rig.apply_login(it[1])
+                logins.append({"configured": rig.expected_presented(), "srv": rig.srv, "corrupt": rig.corrupt})
                 rig.auth()
                 continue
             if it[0] == "disc":
-                cut_live.append(any(t["state"] not in ("done", "crashed")
-                                    for tid, t in sched.thr.items() if tid != 0))
+                cut_live.append(workers_alive())
                 rig.disconnect()
                 continue
             if it[0] == "hello":
@@ -511,7 +552,8 @@ def run_scheduled(scratch, name, scn, choose, rng):
         "top": rig.top.got, "state": PST.get(rig.noise._wa_noiseprotocol.state, 9),
         "inq_left": inq_left, "lock_owner": lock_owner,
         "written": bytes(rig.written), "disk_rs": rig.disk_rs(), "chunks": chunk_log,
-        "resp": [{"variant": r.variant, "errors": r.errors, "units": [k for k, _ in r.units],
+        "logins": logins,
+        "resp": [{"variant": r.variant, "errors": r.errors, "units": [k for k, _ in r.units], "srv": getattr(r, "srv", 1),
                   "presented": NZ.presented(r.client_payload) if r.client_payload is not None else None,
                   "received": r.received} for r in rig.resps],
         "expected_prologue": rig.expected_prologue(), "expected_presented": rig.expected_presented(),
